@@ -29,6 +29,8 @@ type HSOut struct {
 type EchoOpts struct {
 	Echo     bool
 	C2S, S2C []byte
+	// C2SParts, if set, are the sizes of the successive Write calls the client makes for C2S (default: one Write).
+	C2SParts []int
 	// NoClose leaves the endpoints open at the end (caller closes).
 	NoClose bool
 }
@@ -69,10 +71,24 @@ func SpawnHandshakeEcho(w *World, p *Pair, o EchoOpts, out *HSOut, tag string) {
 		}
 		if o.Echo {
 			out.EchoTried = true
-			if _, err := p.C.Write(o.C2S); err != nil {
-				out.CEchoErr = "client write: " + err.Error()
-				p.C.Close()
-				return
+			rest := o.C2S
+			for _, n := range o.C2SParts {
+				if n > len(rest) {
+					n = len(rest)
+				}
+				if _, err := p.C.Write(rest[:n]); err != nil {
+					out.CEchoErr = "client write: " + err.Error()
+					p.C.Close()
+					return
+				}
+				rest = rest[n:]
+			}
+			if len(rest) > 0 || len(o.C2SParts) == 0 {
+				if _, err := p.C.Write(rest); err != nil {
+					out.CEchoErr = "client write: " + err.Error()
+					p.C.Close()
+					return
+				}
 			}
 			got, err := readFull(p.C, len(o.S2C))
 			out.GotS2C = got
